@@ -28,6 +28,21 @@ def fbits(x):
     return "%016x" % struct.unpack("<Q", struct.pack("<d", float(x)))[0]
 
 
+SHM_COUNT = 0
+
+
+def shm_shape(width, depth):
+    """shapes whose sketches are created in shared memory: odd sizes ≥ 9 cells (w ≡ d mod 8), about one random shape in twelve"""
+    if (width - depth) % 8 == 0 and width >= 3 and (width * depth) % 8 != 0:
+        cm = sk().countmin
+        if getattr(cm.sleep, "__name__", "") == "sleep":
+            cm.sleep = lambda s_: None   # the 0.25 s pause in __del__ (test-side patch, these slices only; C16 keeps the original)
+        global SHM_COUNT
+        SHM_COUNT += 1
+        return True
+    return False
+
+
 def make(kind, width, depth, max_count=None, nr=None):
     s = sk()
     cls = s.CountMinLog8 if kind == "log8" else s.CountMinLog16
@@ -36,6 +51,10 @@ def make(kind, width, depth, max_count=None, nr=None):
         kw["max_count"] = max_count
     if nr is not None:
         kw["num_reserved"] = nr
+    # one case in eight lives in a shared-memory block (the property is about every count-min sketch; a block whose size is not a
+    # multiple of 8 leaves the bookkeeping counters unaligned, next to the last counters of the table)
+    if shm_shape(width, depth):
+        kw["shared_memory"] = True
     return cls(width, depth, **kw)
 
 
